@@ -1610,8 +1610,8 @@ def run(ctx) -> Result:
     corpus = load_corpus()
     evaluate(res, corpus, rng)
     res.count("corpus", len(corpus))
-    n_all = 4000 if ctx.thorough else 300
-    n_rep = 4000 if ctx.thorough else 200
+    n_all = 4000 if ctx.thorough else 240
+    n_rep = 4000 if ctx.thorough else 160
     batch = 200
     import time
 
@@ -1629,7 +1629,7 @@ def run(ctx) -> Result:
         evaluate(res, cases, rng)
         done += batch
     # targeted streams (regions the generic stream reaches too rarely)
-    n_t = 600 if ctx.thorough else 50
+    n_t = 600 if ctx.thorough else 45
     streams = [
         # a discipline of a cycle that also feeds a private variable back to itself, every class
         lambda: gen_case(rng, shape="strong", private=True),
